@@ -1,17 +1,25 @@
 // c17: OS-type emulation does not depend on the host.
 //
-// Built with -tags verif,avfs_setostype. Three parts, all exhaustive
+// Built with -tags verif,avfs_setostype. Four parts, all exhaustive
 // enumerations on real instances (no sampling):
 //
 //	(A) static facts of Linux-/Windows-typed MemFS and OrefaFS, and the family
 //	    (avfs.LinuxError / avfs.WindowsError / OS-independent) of the error
-//	    values of a list of deliberately failing calls;
+//	    values of a list of deliberately failing calls; the default
+//	    configurations (system directories of the constructor; default or
+//	    same-type identity manager): default locations exist on both types;
 //	(B) every sequence <= n of VolumeAdd/VolumeDelete/VolumeList (+ Mkdir/Stat
 //	    on the volumes) against a set model;
 //	(C) engine A (lib/bfs): every history <= d of namespace calls written with
 //	    portable paths, executed in lock-step on a Linux-typed and a
 //	    Windows-typed instance; per call: same success/failure (finer: same
-//	    error class, right error family), afterwards isomorphic trees.
+//	    error class, right error family), afterwards isomorphic trees;
+//	    systems: harness configuration (default volume, added volume,
+//	    non-initial tree) and the default configuration of the emulated OS
+//	    ("+sys") with the default locations as operands;
+//	(D) Glob/WalkDir/ReadDir over every operand of <= n elements (literal and
+//	    wildcard elements, absolute and relative) on a fixed deeper tree,
+//	    Linux-typed against Windows-typed (patterns.go).
 package main
 
 import (
@@ -62,7 +70,7 @@ func main() {
 	tier := flag.String("tier", "quick", "")
 	depth := flag.Int("depth", 0, "history bound of part (C) (default 2 quick / 3 thorough)")
 	volLen := flag.Int("vol-len", 0, "sequence bound of part (B) (default 3 quick / 4 thorough)")
-	systems := flag.String("systems", "MemFS,OrefaFS,MemFS+tree,OrefaFS+tree,MemFS@D,MemFS@D+tree", "systems of part (C): kind[@D][+tree]")
+	systems := flag.String("systems", "MemFS,OrefaFS,MemFS+tree,OrefaFS+tree,MemFS@D,MemFS@D+tree,MemFS+sys,OrefaFS+sys", "systems of part (C): kind[@D][+tree][+sys]")
 	replay := flag.String("replay", "", "re-execute a replay file of part (C) and print what happens")
 
 	var wflag string
@@ -137,6 +145,7 @@ func main() {
 	var (
 		sst        staticStats
 		vst        volStats
+		pst        patStats
 		all        []bfs.Stats
 		harnessErr string
 		skipped    string
@@ -149,7 +158,13 @@ func main() {
 	}
 
 	if !consOK {
-		skipped = "a constructor did not produce the requested OS type: parts (B) and (C) skipped"
+		skipped = "a constructor did not produce the requested OS type: parts (B), (C) and (D) skipped"
+	}
+
+	if consOK && harnessErr == "" {
+		if err := runDefaults(rep, &sst); err != nil {
+			harnessErr = "default configurations: " + err.Error()
+		}
 	}
 
 	// ---- part (B)
@@ -157,6 +172,16 @@ func main() {
 		if err := runVolumes(rep, vl, &vst); err != nil {
 			harnessErr = "volumes: " + err.Error()
 		}
+	}
+
+	// ---- part (D)
+	if consOK && harnessErr == "" {
+		if err := runPatterns(rep, *tier, &pst); err != nil {
+			harnessErr = "patterns: " + err.Error()
+		}
+
+		fmt.Printf("C17 patterns: systems=%d operands=%d (<= %d elements over %d) calls per side=%d with a result=%d, wildcard directly below the root and matching=%d\n",
+			len(pst.Systems), pst.Operands, pst.MaxElems, len(pst.Elements), pst.Calls, pst.NonEmpty, pst.WildBelowRoot)
 	}
 
 	// ---- part (C)
@@ -221,8 +246,8 @@ func main() {
 
 		r := map[string]any{
 			"part": "pair", "fs": in.system, "history": in.hist, "op": in.op, "detail": det,
-			"how": "fresh Linux-typed and Windows-typed " + in.system + " (SystemDirs: /tmp resp. C:\\tmp, umask 022, Chdir to the root); " +
-				"apply the history then op on both, paths built with each instance's own Join under its root; " +
+			"how": "fresh Linux-typed and Windows-typed " + in.system + " (SystemDirs: /tmp resp. C:\\tmp; +sys: the constructor's own system directories and, MemFS, a MemIdm of the same OS type; umask 022, Chdir to the root); " +
+				"apply the history then op on both, paths built with each instance's own Join under its root ($TMP = vfs.TempDir(), $HOME = avfs.HomeDir(vfs, \"\"), $HOMEUSER = avfs.HomeDirUser(vfs, \"\", vfs.User())); " +
 				"re-execute: ./check " + *id + " " + *tier + " -replay <this file>",
 		}
 
@@ -272,6 +297,14 @@ func main() {
 		samples = append(samples, map[string]any{"part": "static", "fact": sst.Facts[len(sst.Facts)-1]})
 	}
 
+	if pst.Sample != nil {
+		samples = append(samples, map[string]any{"part": "patterns", "call": pst.Sample})
+	}
+
+	for k, n := range pst.OutcomeClasses {
+		outcomes["patterns:"+k] += n
+	}
+
 	code := rep.Finish()
 	if harnessErr != "" {
 		fmt.Fprintln(os.Stderr, "c17: harness error:", harnessErr)
@@ -283,17 +316,20 @@ func main() {
 		PropertyID: *id, Tier: *tier, Seed: ev.Seed(), Level: "model_checking",
 		Coverage: map[string]any{
 			"states": states, "transitions": trans, "traces_validated_against_impl": trans,
-			"evaluations": trans + vst.ChecksWindows + vst.ChecksLinux + sst.Checked, "distinct_nontrivial": len(outcomes),
+			"evaluations": trans + vst.ChecksWindows + vst.ChecksLinux + sst.Checked + pst.Calls, "distinct_nontrivial": len(outcomes),
 			"outcome_classes": outcomes,
-			"rule": "(C) every history of length <= bound over the portable call alphabet executed in lock-step on a fresh Linux-typed and a fresh Windows-typed real instance, oracle on every transition; " +
+			"rule": "(C) every history of length <= bound over the portable call alphabet (namespace calls, Glob and WalkDir with the wildcard / the root at every depth from the volume root down; systems +sys: also the calls on the default locations $TMP, $HOME, $HOMEUSER and CreateTemp/MkdirTemp with dir \"\") executed in lock-step on a fresh Linux-typed and a fresh Windows-typed real instance, oracle on every transition; " +
+				"(D) every operand of <= bound elements over the element alphabet, absolute and relative, given to Glob (all), WalkDir and ReadDir (operands without wildcard) on both instances holding the same fixed tree, from each current directory, results compared in portable spelling; " +
 				"(B) every sequence of length <= bound over the volume alphabet executed on a fresh real MemFS of each OS type against the set model; " +
-				"(A) fixed list of facts and failing calls; states/transitions count part (C) only; evaluations = oracle evaluations of (A)+(B)+(C); " +
-				"distinct_nontrivial = distinct (call, Linux-typed outcome kind) classes observed in (C) (listed in outcome_classes; those of (B) are in volumes.outcome_classes)",
+				"(A) fixed list of facts and failing calls; the default configurations (constructor's system directories x default / same-type identity manager): each default location is an existing directory on both types or on neither, CreateTemp/MkdirTemp with dir \"\" agree; " +
+				"states/transitions count part (C) only; evaluations = oracle evaluations of (A)+(B)+(C)+(D); " +
+				"distinct_nontrivial = distinct (call, Linux-typed outcome kind) classes observed in (C) and (D) (listed in outcome_classes, those of (D) prefixed patterns:; those of (B) are in volumes.outcome_classes)",
 			"samples":    samples,
 			"exhaustive": exh,
-			"bound": fmt.Sprintf("pair histories of length <= %d (completed %d) over names {a,b} depth <= 2; volume sequences of length <= %d over %d calls",
-				d, depthDone, vl, vst.AlphabetSize),
-			"systems": all, "static": sst, "volumes": vst,
+			"bound": fmt.Sprintf("pair histories of length <= %d (completed %d) over names {a,b} depth <= 2 (+sys systems: plus $TMP, $TMP/a, $HOME, $HOMEUSER); volume sequences of length <= %d over %d calls; "+
+				"pattern operands of <= %d elements over %d elements {%s}, absolute and relative, %d current directories, %d systems, one fixed tree of depth %d",
+				d, depthDone, vl, vst.AlphabetSize, pst.MaxElems, len(pst.Elements), strings.Join(pst.Elements, " "), len(pst.Cwds), len(pst.Systems), pst.MaxElems),
+			"systems": all, "static": sst, "volumes": vst, "patterns": pst,
 			"static_facts_checked": sst.Checked, "volume_sequences_enumerated": vst.Sequences,
 			"known_findings_matched": rep.KnownMatched(), "skipped": skipped,
 			"violation_instances": rep.Total,
@@ -306,6 +342,9 @@ func main() {
 			"the same PANIC/DEADLOCK on both OS types is not a C17 difference (owned by C07); one on a single side is",
 			"random part of temp names supplied by the harness: the sequence 0,1,0,1.. restarted for every call on each side",
 			"OrefaFS cannot address its root directory under either OS type: its tree is dumped from the top-level names a, b, t0, t1, tmp",
+			"configurations: the harness configuration (one system directory /tmp resp. C:\\tmp given to the constructor, default identity manager = typed after the host) and, systems +sys and part (A), the default configuration of the emulated OS (system directories created by the constructor; MemFS: MemIdm of the same emulated OS type, so that the administrator is the emulated OS's; OrefaFS takes no identity manager); the default configuration with the constructor's own (host-typed) identity manager is judged in part (A) only",
+			"default locations are spelled by role and resolved on each instance by the library's helpers for its current user ($TMP = vfs.TempDir(), $HOME = avfs.HomeDir(vfs, \"\"), $HOMEUSER = avfs.HomeDirUser(vfs, \"\", vfs.User()), MemFS only); the tree created by the constructor is compared as one line per role plus everything below $TMP; system entries without counterpart on the other type (C:\\Windows, the Default user's directories, the intermediate AppData\\Local) are not compared, nor is the content of $HOME and $HOMEUSER (on the Windows type the temporary directory lives below them); no Chdir into, no symbolic link inside and no removal of $HOME/$HOMEUSER (their depth below the root and their nesting differ by documentation)",
+			"Glob patterns hold no '\\\\' (escape on the Linux type, separator on the Windows type) and are built like paths (each instance's Join under its root); the order of the matches is compared; part (D) runs in the harness configuration on the default volume (MemFS, OrefaFS) and on an added volume D: (MemFS)",
 			"link targets are relative only (an absolute path of one OS is not a portable operand); symbolic-link calls only on MemFS (OrefaFS does not advertise FeatSymlink)",
 			"drive-letter case of volume names is undocumented: the observed behaviour is recorded (coverage.volumes.drive_letter_case_observed) and only its consistency is checked",
 		},
@@ -316,8 +355,8 @@ func main() {
 		_ = ev.Write(filepath.Join(verifDir, "evidence", *id+".json"), e)
 	}
 
-	fmt.Printf("C17 summary: static checks=%d (failing calls=%d) | volume sequences=%d (len<=%d, %d calls) | pair states=%d transitions=%d histories<=%d completed=%d exhaustive=%v | distinct outcome classes=%d | violation signatures new=%d known=%d\n",
-		sst.Checked, sst.FailingCalls, vst.Sequences, vl, vst.Calls, states, trans, d, depthDone, exh, len(outcomes), rep.NewCount(), len(rep.KnownMatched()))
+	fmt.Printf("C17 summary: static checks=%d (failing calls=%d) | volume sequences=%d (len<=%d, %d calls) | pattern operands=%d (calls per side=%d) | pair states=%d transitions=%d histories<=%d completed=%d exhaustive=%v | distinct outcome classes=%d | violation signatures new=%d known=%d\n",
+		sst.Checked, sst.FailingCalls, vst.Sequences, vl, vst.Calls, pst.Operands, pst.Calls, states, trans, d, depthDone, exh, len(outcomes), rep.NewCount(), len(rep.KnownMatched()))
 
 	if skipped != "" {
 		fmt.Println("C17:", skipped)
